@@ -125,10 +125,19 @@ class Build:
 
 
 def ensure_makefile():
+    """coq_makefile over the files of _CoqProject that exist right now (a listed but missing file
+    would make every `make` fail, whatever the target)."""
     mk = os.path.join(COQ, "Makefile")
     cp = os.path.join(COQ, "_CoqProject")
-    if not os.path.exists(mk) or os.path.getmtime(mk) < os.path.getmtime(cp):
-        rc, out = sh(["coq_makefile", "-f", "_CoqProject", "-o", "Makefile"], cwd=COQ)
+    lines = [ln.rstrip("\n") for ln in open(cp)]
+    keep = [ln for ln in lines if not ln.strip().endswith(".v") or os.path.exists(os.path.join(COQ, ln.strip()))]
+    text = "\n".join(keep) + "\n"
+    eff = os.path.join(COQ, "_CoqProject.effective")
+    old = open(eff).read() if os.path.exists(eff) else None
+    if old != text or not os.path.exists(mk):
+        with open(eff, "w") as f:
+            f.write(text)
+        rc, out = sh(["coq_makefile", "-f", "_CoqProject.effective", "-o", "Makefile"], cwd=COQ)
         if rc != 0:
             raise MachineryError("coq_makefile failed: " + out[-400:])
 
@@ -164,8 +173,8 @@ def build(prop_files: List[str], need_driver: bool = True, jobs: int = 16,
             else:
                 b.broken.append(f)
         # Print Assumptions output: recompile the property file itself, capturing stdout
-        pf = prop_files[-1]
-        if b.compiled.get(pf):
+        pf = prop_files[-1] if prop_files else None
+        if pf and b.compiled.get(pf):
             rc2, out2 = sh(["timeout", "600", "coqc", "-Q", "FA", "FA", pf], cwd=COQ, timeout=700)
             b.assumptions[pf] = out2
             if rc2 != 0:
